@@ -74,19 +74,37 @@ func verifH_C08_disk() {
 func verifH_C08_text() {
 	n, m := verifParam("intdigits", 2), verifParam("bigdigits", 2)
 	slen := verifParam("slen", 2)
+	// A number literal is a concrete prefix followed by k symbolic digits. The
+	// boundary cases keep the prefix of MaxInt32 / MaxInt64 and leave the last
+	// digit(s) symbolic, so the solver decides exactly where acceptance ends
+	// without multiplying long symbolic digit strings.
+	//   intdigits/bigdigits = k  (1..3): k symbolic digits
+	//   = 10: "214748364" + 1 symbolic digit      (around MaxInt32 = 2147483647)
+	//   = 19: "922337203685477580" + 1 symbolic digit (around MaxInt64 = 9223372036854775807)
+	//   = 20: "9223372036854775807" + 1 symbolic digit (always beyond 64 bits)
 	digits := func(tag string, k int) ([]byte, int64, bool) {
-		d := verifBytes(tag, k)
+		prefix := ""
+		switch k {
+		case 10:
+			prefix, k = "214748364", 1
+		case 19:
+			prefix, k = "922337203685477580", 1
+		case 20:
+			prefix, k = "9223372036854775807", 1
+		}
 		var v uint64
 		fits := true
+		d := []byte(prefix)
 		for i := range d {
-			verifAssume(verifAnd(d[i] >= '0', d[i] <= '9'))
-			if i >= 18 {
-				// the value may leave 63 bits from here on: track it exactly
-				fits = verifAnd(fits, verifAnd(v <= math.MaxInt64/10, v*10 <= math.MaxInt64-uint64(d[i]-'0')))
-			}
 			v = v*10 + uint64(d[i]-'0')
 		}
-		return d, int64(v), fits
+		sd := verifBytes(tag, k)
+		for i := range sd {
+			verifAssume(verifAnd(sd[i] >= '0', sd[i] <= '9'))
+			fits = verifAnd(fits, verifAnd(v <= math.MaxInt64/10, v*10 <= math.MaxInt64-uint64(sd[i]-'0')))
+			v = v*10 + uint64(sd[i]-'0')
+		}
+		return append(d, sd...), int64(v), fits
 	}
 	ad, av, afits := digits("a", n)
 	bd, bv, bfits := digits("b", m)
